@@ -24,15 +24,21 @@ IsSquare(n) == n >= 0 /\ ISqrt(n) * ISqrt(n) = n
 QIsSquare(x) == IsSquare(x[1]) /\ IsSquare(x[2])              \* x gcd-normalised
 QSqrt(x) == <<ISqrt(x[1]), ISqrt(x[2])>>                       \* only meaningful if QIsSquare(x)
 
+\* ---- addition over the least common denominator (Rationals!QAdd cross-multiplies the
+\* denominators, which overflows 2^31 much earlier) ----
+QAddL(a, b) == LET g == Gcd(a[2], b[2])
+               IN Norm(a[1] * (b[2] \div g) + b[1] * (a[2] \div g), (a[2] \div g) * b[2])
+QSubL(a, b) == QAddL(a, QNeg(b))
+
 \* ---- vectors and matrices ----
 QV(v) == <<Q(v[1]), Q(v[2]), Q(v[3])>>                         \* integer vector -> rational vector
-VAdd(u, v) == <<QAdd(u[1], v[1]), QAdd(u[2], v[2]), QAdd(u[3], v[3])>>
-VSub(u, v) == <<QSub(u[1], v[1]), QSub(u[2], v[2]), QSub(u[3], v[3])>>
+VAdd(u, v) == <<QAddL(u[1], v[1]), QAddL(u[2], v[2]), QAddL(u[3], v[3])>>
+VSub(u, v) == <<QSubL(u[1], v[1]), QSubL(u[2], v[2]), QSubL(u[3], v[3])>>
 VScale(c, v) == <<QMul(c, v[1]), QMul(c, v[2]), QMul(c, v[3])>>
-Dot(u, v) == QAdd(QAdd(QMul(u[1], v[1]), QMul(u[2], v[2])), QMul(u[3], v[3]))
-Cross(u, v) == << QSub(QMul(u[2], v[3]), QMul(u[3], v[2])),
-                  QSub(QMul(u[3], v[1]), QMul(u[1], v[3])),
-                  QSub(QMul(u[1], v[2]), QMul(u[2], v[1])) >>
+Dot(u, v) == QAddL(QAddL(QMul(u[1], v[1]), QMul(u[2], v[2])), QMul(u[3], v[3]))
+Cross(u, v) == << QSubL(QMul(u[2], v[3]), QMul(u[3], v[2])),
+                  QSubL(QMul(u[3], v[1]), QMul(u[1], v[3])),
+                  QSubL(QMul(u[1], v[2]), QMul(u[2], v[1])) >>
 VEq(u, v) == QEq(u[1], v[1]) /\ QEq(u[2], v[2]) /\ QEq(u[3], v[3])
 VIsZero(u) == u[1][1] = 0 /\ u[2][1] = 0 /\ u[3][1] = 0
 MatVec(M, v) == <<Dot(M[1], v), Dot(M[2], v), Dot(M[3], v)>>
